@@ -38,12 +38,12 @@ def getKind (j : Json) : Option Kind := do
   | "write" => pure (.write (← fBytes j "value"))
   | _ => none
 
-/-- rounds until the mails no longer change (bounded) -/
-def settle (c : Setup) : Nat → List Mail → Nat → Nat
-  | 0, _, n => n
-  | fuel + 1, mails, n =>
+/-- rounds until the mails no longer change (bounded): `mailsAfter c n` for the first `n` that is a fixpoint -/
+def settle (c : Setup) : Nat → List Mail → List Mail
+  | 0, mails => mails
+  | fuel + 1, mails =>
     let next := round c mails
-    if next == mails then n else settle c fuel next (n + 1)
+    if next == mails then mails else settle c fuel next
 
 def step (j : Json) : Option String := do
   match ← fStr j "mode" with
@@ -73,8 +73,7 @@ def step (j : Json) : Option String := do
       | .read => fBytes j "value"
       | .write _ => fBytes j "init"
     let c : Setup := ⟨p, k, ← fNat j "cnt", sched, [⟨p.index, subOr1 p, p.sub.isNone, ← fNat j "cap", stored⟩]⟩
-    let n := settle c 4096 (mailsAfter c 0) 0
-    let r := system c n
+    let r := resultOf c (settle c 4096 (mailsAfter c 0))
     pure (showRun (r.trace, r.outcome) ++ " | obj:" ++ hexOfBytes ((target c r.objs).getD []))
   | _ => none
 
